@@ -1143,13 +1143,15 @@ static uint32 GetLevenshteinDistanceAux(const char *shortString, uint32 shortStr
    for (uint32 x=1; x<=longStringLen; x++)
    {
       columns[0] = x;
+      uint32 rowMin = x;  // the final distance can't be smaller than the smallest value in this row
       for (uint32 y=1, lastdiag=(x-1); y<=shortStringLen; y++)
       {
          const uint32 olddiag = columns[y];
          columns[y] = muscleMin(columns[y]+1, columns[y-1]+1, lastdiag+((shortString[y-1]==longString[x-1])?0:1));
          lastdiag = olddiag;
+         rowMin = muscleMin(rowMin, columns[y]);
       }
-      if (columns[shortStringLen] >= maxResult) break;
+      if (rowMin >= maxResult) break;
    }
 
    const uint32 ret = columns[shortStringLen];
